@@ -4,7 +4,8 @@ package main
 // resource}.go  ->  lean/RdfModel/Gen/DescFacts.lean
 //
 // Purely syntactic (go/ast). Facts:
-//   cmps      every comparison of a reference count (`rb.blankNodeReferences[…]` or
+//   cmps      (guard form normalised: `if opts.F { if c }` and `if … && opts.F && c` give the same fact)
+//             every comparison of a reference count (`rb.blankNodeReferences[…]` or
 //             `rb.GetBlankNodeReferences(…)`) with an integer literal, per method, with the operator, the
 //             literal and the options field of the innermost enclosing `if opts.<Field>` (or "-");
 //   incs      every `rb.blankNodeReferences[…]++ / -- / = / +=`: method, operator, the tag expression of
@@ -120,7 +121,7 @@ func genC17(leanRoot string) {
 								}
 								if se, ok := e.(*ast.SelectorExpr); ok {
 									if id, ok := se.X.(*ast.Ident); ok && id.Name == "opts" && guard == "-" {
-										guard = "&& opts." + se.Sel.Name
+										guard = "opts." + se.Sel.Name // same fact as an enclosing `if opts.<Field>`
 									}
 								}
 							}
